@@ -26,7 +26,7 @@ NOT_YET = {
 ALL = [f"C{n:02d}" for n in range(1, 21)]
 
 # properties whose theorems, tie and check are complete enough to be claimed
-BUILT = []
+BUILT = ["C10"]
 
 
 
